@@ -40,6 +40,10 @@ func (c *validateAwarePostProcessors) PostProcessProperties(properties []*compon
 			continue
 		}
 		if ts, ok := prop.Args().Find(ArgValidate); ok {
+			// an optional point that received no value keeps its zero value: there is nothing to validate
+			if !prop.IsRequired() && !hasConfigValue(prop) {
+				continue
+			}
 			var p = prop.Type
 			if p.Kind() == reflect.Pointer {
 				p = p.Elem()
@@ -58,4 +62,12 @@ func (c *validateAwarePostProcessors) PostProcessProperties(properties []*compon
 		}
 	}
 	return nil, nil
+}
+
+// hasConfigValue tells whether the configuration processors bound a value to the property
+func hasConfigValue(prop *component_definition.Property) bool {
+	if prop.Tag == definition.PrefixTag {
+		return prop.Configurations[prop.TagVal] != nil
+	}
+	return prop.TagVal != ""
 }
